@@ -5,8 +5,8 @@ PID = "C05"
 LEVEL = cc.LEVEL
 BUILDS = cc.BUILDS
 CASE_TIMEOUT = cc.CASE_TIMEOUT
-LEAN_MODULES = ['AsynqModel.Theorems.C05', 'AsynqModel.Theorems.SpecC05']
-THEOREMS = ["AsynqModel.Core." + n for n in ['C05_trace_mono', 'C05_out_stable', 'C05_flush_block', 'C05_max_priority', 'C05_inadmissible_stuck', 'C05_flush_not_stuck', 'C05_not_after_done', 'C05_not_after_done_E', 'C05_items_answered', 'C05_items_in_heap', 'C05_batches_distinct', 'C05_body_flushed', 'C05_flush_once', 'Spec_C05_accepts_reach', 'Spec_C05_accepts', 'Spec_C05_accepts_run', 'Spec_C05_relation', 'Spec_C05_obs']]
+LEAN_MODULES = ['AsynqModel.Theorems.C05', 'AsynqModel.Theorems.SpecC05', 'AsynqModel.Theorems.AuditFixes', 'AsynqModel.Theorems.SpecC04b']
+THEOREMS = ["AsynqModel.Core." + n for n in ['C05_trace_mono', 'C05_out_stable', 'C05_flush_block', 'C05_max_priority', 'C05_inadmissible_stuck', 'C05_flush_not_stuck', 'C05_not_after_done', 'C05_not_after_done_E', "C05_items_answered_min", 'C05_items_in_heap', 'C05_batches_distinct', 'C05_body_flushed', "C05_flush_once_min", 'Spec_C05_accepts_reach', 'Spec_C05_accepts', 'Spec_C05_accepts_run', 'Spec_C05_relation', 'Spec_C05_obs']]
 MIX = [('yield',3),('yield_err',3),('full',3),('sync',1)]
 RULE = ("grammar-generated task programs (profiles %s; trees and DAGs of tasks, 1-3 batch kinds with priority overrides "
         "and raising flushes, nested yield structures, errors, try/except, synchronous re-entry, contexts) interpreted on "
